@@ -1027,9 +1027,9 @@ End Sound.
        bound variables and of array values are sorts [sort_of_sexp] reads back (declared);
      - string constants are [str_plain]: printable ASCII without backslash (the open finding
        string-literal-escape: anything else is not denoted by its verbatim text);
-     - array values: the assigned indices are pairwise distinct Bool/Int/BV/String constants
-       ([av_keys_ok]; what Array() guarantees, minus Real indices, whose constants core/Syntax.v
-       does not force into lowest terms);
+     - array values: the assigned indices are pairwise distinct Bool/Int/Real/BV/String
+       constants, Real ones in lowest terms with positive denominator ([av_keys_ok], through C01's
+       key_const; what Array() guarantees);
      - where the meaning of the text depends on the SORT of an argument - both arguments of Iff,
        the argument of extract / rotate / extend - that argument is Bool- resp. BV-typed by [tc]
        and lies in C01's fragment [okt] (whose theorem okt_sound gives the sort of its value);
